@@ -6,7 +6,7 @@
    PPTableFormat.make limits, remove_columns) and CHText.resize_chunks_list /
    calc_chunks_len in ak/color.py 539-566.
 
-   Observation = the lines of PPTable(...).ch_text(no_color=True).plain_text(),
+   Observation = the lines of str(PPTable(...).ch_text(no_color=True)) (what print shows),
    so a chunk is modelled by its text only (a [str]); a cell is a list of chunks.
    Strings are lists of code points; widths / lengths / counts are [nat].
    A record value enters as [cell]: Python's str(value), whether the value is a
